@@ -421,6 +421,9 @@ class Schema(dict, metaclass=LogicalMeta):
             if unprovided(addition):
                 # ignore addition
                 return
+            if alias in self.__dict__:
+                # (the initialization made it readable as an attribute too)
+                self.__dict__[alias] = addition
             return super().__setitem__(alias, addition)
 
         return self.__field_setter__(value, field=field)
@@ -462,7 +465,10 @@ class Schema(dict, metaclass=LogicalMeta):
             )
         field = self.__parser__.get_field(key)
         if not field:
-            return super().__delitem__(key)
+            super().__delitem__(key)
+            # an additional item: do not leave the value readable as an attribute
+            self.__dict__.pop(key, None)
+            return
         return self.__field_deleter__(field)
 
     def popitem(self):
@@ -475,7 +481,10 @@ class Schema(dict, metaclass=LogicalMeta):
             if self.__parser__.get_field(key):
                 # a declared field: the rules of pop() apply (immutable / required)
                 return key, self.pop(key)
-        return super().popitem()
+        key, value = super().popitem()
+        # an additional item: do not leave the value readable as an attribute
+        self.__dict__.pop(key, None)
+        return key, value
 
     def pop(self, key: str, default=unprovided):
         if self.__options__.immutable:
@@ -485,7 +494,10 @@ class Schema(dict, metaclass=LogicalMeta):
             )
         field = self.__parser__.get_field(key)
         if not field:
-            return super().pop(key)
+            value = super().pop(key)
+            # an additional item: do not leave the value readable as an attribute
+            self.__dict__.pop(key, None)
+            return value
         if field.immutable:
             raise exc.DeleteError(
                 f"{self.__name__}: Attempt to pop immutable item: [{repr(key)}]"
@@ -571,6 +583,10 @@ class Schema(dict, metaclass=LogicalMeta):
             if field.name in self:
                 # do not leave the values readable as attributes
                 self.__dict__.pop(field.attname, None)
+        for key in list(self):
+            if not self.__parser__.get_field(key):
+                # (nor those of the additional items)
+                self.__dict__.pop(key, None)
         return super().clear()
 
 
